@@ -21,12 +21,14 @@ from ..gen import gen_effects
 from .. import molgen, wire
 
 LEVEL = 'proof'
-LEVEL_TEXT = ('The cache / pending-change / transaction discipline is proved for every edit history: the executable Lean model '
-              'interprets the event lists regenerated from the source on each run; a decidable static analysis of those lists is '
-              'proved sound for the interpreter (every reachable state has no stale memoised value, fresh labels and hydrogens '
-              'outside transactions, symmetric adjacency; abort restores; copies independent and editable) and is discharged by '
-              'kernel evaluation on the regenerated table. Proof is the right level because the discipline is a finite-state '
-              'protocol over an unbounded graph, which induction over op lists closes outright.')
+LEVEL_TEXT = ('The cache / transaction / copy discipline is proved for every edit history: the executable Lean model interprets the '
+              'event lists regenerated from the source on each run; a decidable static analysis of those lists (TablesOK) is proved '
+              'sound for the interpreter (every reachable object has no stale memoised value outside a transaction and no stale '
+              'ring/component value ever, coherent backup snapshots, assigned transaction slots; abort restores exactly the '
+              'snapshot; operations touch only their own object; accepted methods never raise AttributeError; raw edits keep the '
+              'adjacency symmetric) and is discharged by kernel evaluation on the regenerated table. Freshness of stored hydrogen '
+              'counts and labels is validated by the correspondence and the search, not proved. Proof is the right level because '
+              'the discipline is a finite protocol over an unbounded graph, which induction over op lists closes outright.')
 LEVEL_NOTE = ('Lean kernel; gen_effects AST extractor; hand-written data semantics of the raw graph edits and of object creation '
               '(validated by the correspondence); Spec/Deps.lean (which memoised value may depend on what; validated by comparing '
               'every memoised value with an independently rebuilt molecule); stereo marks and the values of derived attributes '
@@ -262,6 +264,8 @@ class Recorder:
         MoleculeContainer.calc_implicit = self.orig
 
 
+BULK_OPS = ('kekule', 'thiele', 'neutralize', 'standardize', 'standardize_charges', 'implicify_hydrogens',
+            'explicify_hydrogens', 'remove_coordinate_bonds', 'clean_isotopes', 'canonicalize', 'fix_resonance')
 RELABEL_OPS = {'addAtom', 'addBond', 'delAtom', 'delBond', 'fixStructure', 'calcLabels', 'exitOk'}
 
 
@@ -294,6 +298,8 @@ class Flags:
                 self.h_copied.add(created)
             elif o in self.h_copied:
                 self.h_copied.add(created)
+        elif name in BULK_OPS:
+            self.h_copied.add(o)   # hydrogens of aromatic atoms are not rule-based
         elif name in RELABEL_OPS and exc is None:
             self.renumbered.discard(o)
 
@@ -368,6 +374,8 @@ def apply_op(objs, op):
         m.meta[a[1]] = a[2]
     elif name == 'read':
         read_key(m, a[1])
+    elif name in BULK_OPS:      # bulk edits: only in the property-level search (not modelled)
+        getattr(m, name)()
     else:
         raise RuntimeError('unknown op ' + name)
     return created
@@ -805,10 +813,10 @@ def oracle(smi, ops):
     counts equal an independently rebuilt molecule; aborted transaction restores the prior molecule and leaves it usable;
     operations on a copy/substructure/union do not change the source and do not fail for lack of initialisation."""
     seed = fresh_seed(smi)
-    if not h_consistent(seed):
-        return None
     objs = [seed]
     flags = Flags()
+    if not h_consistent(seed):
+        flags.h_copied.add(0)   # stored hydrogens are not all rule-based (aromatic heteroatoms): not compared
     origin = {0: None}           # object -> (source object, how) for copies
     enter_state = {}
     attr_in_txn, edit_in_txn = {}, {}
@@ -840,8 +848,8 @@ def oracle(smi, ops):
         flags.update(op, created, exc)
         if created is not None:
             origin[created] = (o, name)
-        if exc is not None and name == 'read':
-            return None  # a derived value that cannot be computed (half-edited molecule, writer limits): not a cache question
+        if exc is not None and (name == 'read' or name in BULK_OPS):
+            return None  # a derived value / conversion that cannot be computed for this molecule: not a cache question
         if oc == 'crash:KeyError' and name in ('setCharge', 'setRadical', 'setXY'):
             return None  # atom does not exist
         if oc.startswith('crash:AttributeError:_'):
@@ -939,9 +947,19 @@ def search(ctx):
                 if admissible(seq):
                     try_case(smi, interleave_reads(list(seq), CORE_READS))
     pool = [s for s, m in molgen.handmade() if h_consistent(m)]
+    bulk_seeds = ['c1ccccc1O', 'c1ccncc1C', 'C1=CC=CC=C1N', 'CC(=O)[O-].[NH4+]', 'c1ccc2ccccc2c1', '[13CH3]C(=O)O[Na]',
+                  'C[N+](=O)[O-]', 'OC1CC1[Mg]Cl', '[H]C([H])([H])O', 'C[n+]1ccccc1.[Cl-]']
+    for smi in bulk_seeds:       # bulk edits (most keep ring / component caches): read-bulk-read, also on copies
+        for bulk in BULK_OPS:
+            for pre in ([], [['copy', 0, 1, 1]]):
+                o = 1 if pre else 0
+                try_case(smi, pre + [['read', o, k] for k in CORE_READS + ['aromatic_rings', 'int_adjacency', 'not_special_connectivity',
+                                                                           'atoms_rings_sizes', 'rings_count', 'brutto']] + [[bulk, o]])
     while time.time() - t0 < budget:
-        smi = ctx.rng.choice(pool)
+        smi = ctx.rng.choice(pool + bulk_seeds)
         ops = gen_sequence(ctx.rng, fresh_seed(smi), ctx.rng.randint(3, 25), allow_skip=False)
+        for _ in range(ctx.rng.randint(0, 2)):   # splice bulk edits into the history
+            ops.insert(ctx.rng.randint(0, len(ops)), [ctx.rng.choice(BULK_OPS), 0])
         try_case(smi, ops)
     ctx.notes.append(f'search: {len(found)} failing signatures in {time.time() - t0:.0f}s')
 
